@@ -482,6 +482,13 @@ func runC04(rc *core.RunCtx) {
 	for _, p := range ref0.EagerPoints {
 		points = append(points, faultPoint{"eager", p})
 	}
+	// values written by a context-aware marshaler: it returns an error before writing, or after
+	// writing half of its output
+	if !deferOp {
+		for _, p := range ref0.CtxPoints {
+			points = append(points, faultPoint{"ctxerr", p}, faultPoint{"ctxpartial", p})
+		}
+	}
 	// serialisation-time fault points: Blob-valued resolver positions that produced a value
 	if !deferOp {
 		for _, p := range ref0.Resolved {
@@ -518,6 +525,12 @@ func runC04(rc *core.RunCtx) {
 		case "rooticpt":
 			plan.RootIcptPanics[fp.Path] = true
 			return "root-field interceptor panic at " + fp.Path
+		case "ctxerr":
+			plan.Faults[fp.Path] = refexec.KCtxMarshalErr
+			return "context marshaler error at " + fp.Path
+		case "ctxpartial":
+			plan.Faults[fp.Path] = refexec.KCtxMarshalPartial
+			return "context marshaler error after a partial write at " + fp.Path
 		}
 		plan.Faults[fp.Path] = refexec.KMarshalPanic
 		if fp.Kind == "eager" {
@@ -527,13 +540,13 @@ func runC04(rc *core.RunCtx) {
 	}
 	for _, fp := range points {
 		for _, panicKind := range []bool{false, true} {
-			if (fp.Kind == "marshal" || fp.Kind == "eager" || fp.Kind == "rooticpt") && !panicKind {
+			if (fp.Kind == "marshal" || fp.Kind == "eager" || fp.Kind == "rooticpt" || fp.Kind == "ctxerr" || fp.Kind == "ctxpartial") && !panicKind {
 				continue
 			}
 			plan := copyPlan(base)
 			what := apply(plan, fp, panicKind)
 			cfg := mk(plan)
-			if fp.Kind == "marshal" {
+			if fp.Kind == "marshal" || fp.Kind == "ctxpartial" {
 				cfg.ViaHTTP = true
 			}
 			out := Execute(rc, cfg)
@@ -542,6 +555,32 @@ func runC04(rc *core.RunCtx) {
 			if fp.Kind == "marshal" {
 				if !checkMarshalPanic(rc, cfg, out, what) {
 					return
+				}
+				continue
+			}
+			if fp.Kind == "ctxpartial" {
+				// the data of this response is not JSON any more: it fails as a whole, with a
+				// well-formed error body (and the server keeps serving: follow-up below)
+				j, err := parsers.ParseJSON([]byte(out.HTTPBody))
+				if out.Stuck || err != nil || j.K != parsers.Obj || j.Get("errors") == nil {
+					rc.Fail("serialisation-failure-body", "partial-write", "%s: status %d body %q", what, out.HTTPStatus, out.HTTPBody)
+					return
+				}
+				if d := j.Get("data"); d != nil && !d.IsNull() {
+					// ... or the failure is contained after all: then exactly that position is
+					// null with one error at its path, like a marshaler that failed before writing
+					plan.Faults[fp.Path] = refexec.KCtxMarshalErr
+					pl := ParseBody(out.HTTPBody)
+					for i := range pl.Errors {
+						if pl.Errors[i].Class == "C:partial" {
+							pl.Errors[i].Class = "C:error"
+						}
+					}
+					ref := Reference(out)
+					if pl.Data.Canon() != ref.Data.Canon() || CompareErrs(ref.Errors, pl.Errors) != "" {
+						rc.Fail("serialisation-failure-body", "partial-write-contained-wrongly", "%s: status %d body %q\nexpected data %s errors %v", what, out.HTTPStatus, out.HTTPBody, ref.Data.Canon(), refexec.SortedErrs(ref.Errors))
+						return
+					}
 				}
 				continue
 			}
@@ -558,7 +597,7 @@ func runC04(rc *core.RunCtx) {
 			k := 2 + t.Choose(3, "nfaults")
 			for j := 0; j < k; j++ {
 				fp := points[t.Choose(len(points), "point")]
-				if fp.Kind == "marshal" {
+				if fp.Kind == "marshal" || fp.Kind == "ctxpartial" {
 					continue
 				}
 				whats = append(whats, apply(plan, fp, t.Bool(1, 2, "panic?")))
